@@ -641,7 +641,7 @@ def config_one(tree, delim, probes_extra, r=None):
             continue
         try:
             v = fn()
-            rt[name] = {"eq": bool(v == c and c == v and _plain(v) == tree), "names": (v.names() == c.names()) if obs["names"] is not None and delim is None else True,
+            rt[name] = {"eq": bool(v == c and c == v and _plain(v) == tree), "names": (sorted(v.names()) == sorted(c.names())) if obs["names"] is not None and delim is None else True,
                         "types": _same_types(_plain(v), tree)}
         except Exception as e:  # noqa: BLE001
             rt[name] = {"exc": _exc(e), "msg": str(e)[:200]}
